@@ -49,6 +49,7 @@ type Scenario struct {
 	CRLF           bool     `json:"crlf,omitempty"`
 	NoFinalNL      bool     `json:"no_final_nl,omitempty"`
 	Bulk           int      `json:"bulk,omitempty"`       // >0: blocks of this many own-line comment lines are inserted (large files)
+	Light bool `json:"light,omitempty"` // no very long comments (used with -d, whose parser trace is enormous)
 	AsciiHead      int      `json:"ascii_head,omitempty"` // >0: the first AsciiHead bytes of the file are pure ASCII (filler comment lines), non-ASCII comments only after
 	Break          int      `json:"break,omitempty"`      // >0: token damage of kind Break-1 on line BreakLine (source must then fail to parse)
 	BreakLine      int      `json:"break_line,omitempty"`
@@ -120,9 +121,9 @@ func plainLinesOfRaw(raw []byte) []string {
 	return out
 }
 
-func commentText(r *RNG, enc string) []byte {
+func commentText(r *RNG, enc string, light bool) []byte {
 	n := r.Range(0, 14)
-	if r.Chance(1, 150) {
+	if r.Chance(1, 150) && !light {
 		n = 30000 // a comment longer than common buffer sizes (64 KiB in bytes)
 	}
 	var b []byte
@@ -240,13 +241,13 @@ func (s *Scenario) materialise() (src []byte, plain []byte) {
 		return s.Enc
 	}
 	for size < s.AsciiHead { // ASCII-only head: the charset cannot be guessed from the beginning of the file
-		l := append([]byte("; "), commentText(r, "ascii")...)
+		l := append([]byte("; "), commentText(r, "ascii", s.Light)...)
 		l = append(l, " -- filler line of plain ASCII text to move the first Japanese comment further down"...)
 		dl = append(dl, l)
 		pl2 = append(pl2, []byte(""))
 		size += len(l) + 1
 	}
-	dl = append(dl, append([]byte("; "), commentText(r, encAt())...))
+	dl = append(dl, append([]byte("; "), commentText(r, encAt(), s.Light)...))
 	pl2 = append(pl2, []byte(""))
 	for _, l := range lines {
 		size += len(l) + 8
@@ -261,17 +262,17 @@ func (s *Scenario) materialise() (src []byte, plain []byte) {
 				sep = ""
 			}
 			d = append(d, (sep + mark + pick(r, []string{" ", "", "\t"}))...)
-			d = append(d, commentText(r, encAt())...)
+			d = append(d, commentText(r, encAt(), s.Light)...)
 		}
 		dl = append(dl, d)
 		pl2 = append(pl2, []byte(l))
 		if r.Chance(1, 8) { // own-line comment
-			dl = append(dl, append([]byte(pick(r, []string{";", "; ", "\t; ", "# "})), commentText(r, encAt())...))
+			dl = append(dl, append([]byte(pick(r, []string{";", "; ", "\t; ", "# "})), commentText(r, encAt(), s.Light)...))
 			pl2 = append(pl2, []byte(""))
 		}
 		if s.Bulk > 0 && r.Chance(1, 6) { // a block of comment lines: pushes the file past buffer sizes, shifts alignment
 			for k := 0; k < s.Bulk; k++ {
-				dl = append(dl, append([]byte("; "), commentText(r, encAt())...))
+				dl = append(dl, append([]byte("; "), commentText(r, encAt(), s.Light)...))
 				pl2 = append(pl2, []byte(""))
 			}
 		}
@@ -877,6 +878,10 @@ func (c *c19Ctx) execute(s *Scenario, keepDir bool) (out *ScenarioOutcome, viol 
 			}()
 		}
 		pr := runProcStdin(cliWatchdog, W, baseEnv("GOMAXPROCS=1", "HOME=/nonexistent"), wp.stdinData, cmd...)
+		if pr.TimedOut && !wp.isFifo {
+			// a loaded machine, not necessarily a hang: one more try with four times the budget
+			pr = runProcStdin(4*cliWatchdog, W, baseEnv("GOMAXPROCS=1", "HOME=/nonexistent"), wp.stdinData, cmd...)
+		}
 		if feederDone != nil {
 			// release a feeder that nobody read from (gosk never opened the source)
 			if rf, err := os.OpenFile(wp.SrcAbs, os.O_RDONLY|syscall.O_NONBLOCK, 0); err == nil {
